@@ -94,6 +94,22 @@ static void check_table(const char *key, const char *what, const int64_t *truth,
     }
 }
 
+/* which words count as fillers / alternates decides "which sequences of real words" a grammar accepts: exactly the words that were added as
+ * such must carry the flag, however often the word table has grown since */
+static void check_flags(fsg_model_t *fsg, const char *const *alpha, int sil_added, int alts_added, const char *when)
+{
+    int w, n = fsg_model_n_word(fsg);
+    for (w = 0; w < n; ++w) {
+        const char *nm = fsg_model_word_str(fsg, w); int want_f = sil_added && (!strcmp(nm, "<sil>") || !strcmp(nm, "+noise+")), want_a = 0, is_f = fsg_model_is_filler(fsg, w) ? 1 : 0, is_a = fsg_model_is_alt(fsg, w) ? 1 : 0;
+        if (!strcmp(nm, vh_path("%s(2)", alpha[2]))) want_a = is_a;                       /* added in half of the cases, whenever its base is in the vocabulary: either */
+        if (alts_added && !strcmp(nm, vh_path("%s(3)", alpha[0]))) want_a = is_a;
+        if (alts_added && !strcmp(nm, vh_path("%s(2)", alpha[0]))) want_a = 1;
+        if (is_f != want_f) { vh_viol(want_f ? "filler_flag_lost" : "real_word_flagged_as_filler", "%s: word %d '%s' of %d: filler flag %d, expected %d", when, w, nm, n, is_f, want_f); return; }
+        if (is_a != want_a) { vh_viol(want_a ? "alternate_flag_lost" : "word_flagged_as_alternate", "%s: word %d '%s' of %d: alternate flag %d, expected %d", when, w, nm, n, is_a, want_a); return; }
+    }
+    vh_count("word_flag_checks", 1); vh_max("max_vocabulary", n);
+}
+
 static void run(long i, vh_rng *r)
 {
     const char *const *alpha = alphabets[vh_below(r, 4)];
@@ -108,7 +124,7 @@ static void run(long i, vh_rng *r)
     fsg_model_t *fsg = NULL;
     long naccept = 0;
     double p_eps = vh_unit(r) * 0.6;
-    int tiny_probs = 0;
+    int tiny_probs = 0, npad = 0;
 
     int null_dense = vh_chance(r, 0.25), perm[16];
     if (null_dense) {
@@ -152,6 +168,14 @@ static void run(long i, vh_rng *r)
         if (g[k].p < 5e-7) tiny_probs = 1;
         vfsa_add(&gen, g[k].from, g[k].to, g[k].sym < 0 ? VF_EPS : gsyms[g[k].sym], (int64_t)plog(g[k].p, lw));
     }
+    /* a larger vocabulary: arcs labelled with words outside the three-letter alphabet (the tables ignore strings that use them);
+     * the model's word table and its filler / alternate flag vectors then grow several times */
+    npad = vh_chance(r, 0.5) ? 0 : vh_range(r, 5, 75);
+    if (npad) {
+        g = (garc *)realloc(g, sizeof(garc) * (size_t)(narcs + npad + 1));
+        for (k = 0; k < npad; ++k) { garc *a = &g[narcs + k]; a->from = (int)vh_below(r, (uint32_t)n_state); a->to = (int)vh_below(r, (uint32_t)n_state); a->sym = NSYM + k; a->p = rand_prob(r); if (a->p < 5e-7) a->p = 0.25; vfsa_add(&gen, a->from, a->to, vfsa_label(&gen, vh_path("pad%02d", k)), (int64_t)plog(a->p, lw)); }
+        vh_count("grammars_with_large_vocabulary", 1);
+    }
     vfsa_table(&gen, NSYM, gsyms, MAXLEN, 1, truth);
     for (k = 0; k < tsz; ++k) if (truth[k] > VF_NEG) ++naccept;
     vh_desc("%d states start=%d final=%d, %d arcs (eps share %.2f), lw=%.1f, alphabet {%s,%s,%s}, built from %s; %ld of %ld strings accepted",
@@ -163,9 +187,9 @@ static void run(long i, vh_rng *r)
         vh_sb_init(&sb);
         vh_sb_printf(&sb, "# generated\nFSG_BEGIN g%ld\n%s %d\n%s %d\n\n%s %d\n", i, vh_chance(r, 0.5) ? "NUM_STATES" : "N", n_state,
                      vh_chance(r, 0.5) ? "START_STATE" : "S", start, vh_chance(r, 0.5) ? "FINAL_STATE" : "F", final);
-        for (k = 0; k < narcs; ++k) {
+        for (k = 0; k < narcs + npad; ++k) {
             if (vh_chance(r, 0.1)) vh_sb_printf(&sb, "# comment line\n");
-            vh_sb_printf(&sb, "%s%s %d %d %.17g %s\n", vh_chance(r, 0.2) ? "  " : "", vh_chance(r, 0.5) ? "TRANSITION" : "T", g[k].from, g[k].to, g[k].p, g[k].sym < 0 ? "" : alpha[g[k].sym]);
+            vh_sb_printf(&sb, "%s%s %d %d %.17g %s\n", vh_chance(r, 0.2) ? "  " : "", vh_chance(r, 0.5) ? "TRANSITION" : "T", g[k].from, g[k].to, g[k].p, g[k].sym < 0 ? "" : g[k].sym >= NSYM ? vh_path("pad%02d", g[k].sym - NSYM) : alpha[g[k].sym]);
         }
         vh_sb_printf(&sb, "FSG_END\n");
         vh_ctx("fsg_model_read_s3file");
@@ -177,7 +201,7 @@ static void run(long i, vh_rng *r)
         /* the text carries the probabilities with 17 significant digits: same truth */
         vfsa_free(&gen); vfsa_init(&gen, n_state, start, final);
         for (k = 0; k < NSYM; ++k) gsyms[k] = vfsa_label(&gen, alpha[k]);
-        for (k = 0; k < narcs; ++k) vfsa_add(&gen, g[k].from, g[k].to, g[k].sym < 0 ? VF_EPS : gsyms[g[k].sym], (int64_t)plog(g[k].p, lw));
+        for (k = 0; k < narcs + npad; ++k) vfsa_add(&gen, g[k].from, g[k].to, g[k].sym < 0 ? VF_EPS : g[k].sym >= NSYM ? vfsa_label(&gen, vh_path("pad%02d", g[k].sym - NSYM)) : gsyms[g[k].sym], (int64_t)plog(g[k].p, lw));
         vfsa_table(&gen, NSYM, gsyms, MAXLEN, 1, truth);
         vh_count("built_from_text", 1);
     } else {
@@ -187,9 +211,9 @@ static void run(long i, vh_rng *r)
         fsg->start_state = start; fsg->final_state = final;
         for (k = 0; k < NSYM; ++k) wid[k] = fsg_model_word_add(fsg, alpha[k]);
         vh_ctx("fsg_model_trans_add");
-        for (k = 0; k < narcs; ++k) {
+        for (k = 0; k < narcs + npad; ++k) {
             if (g[k].sym < 0) fsg_model_null_trans_add(fsg, g[k].from, g[k].to, plog(g[k].p, lw));
-            else fsg_model_trans_add(fsg, g[k].from, g[k].to, plog(g[k].p, lw), wid[g[k].sym]);
+            else fsg_model_trans_add(fsg, g[k].from, g[k].to, plog(g[k].p, lw), g[k].sym >= NSYM ? fsg_model_word_add(fsg, vh_path("pad%02d", g[k].sym - NSYM)) : wid[g[k].sym]);
         }
         vh_count("built_from_api", 1);
     }
@@ -280,7 +304,7 @@ static void run(long i, vh_rng *r)
     {
         int order = (int)vh_below(r, 2), step;
         double silprob = VH_PICK(r, ((double[]){ 0.005, 0.1, 1e-8, 1.0 })), fillprob = VH_PICK(r, ((double[]){ 1e-8, 0.02 }));
-        int have_alt_base = fsg_model_word_id(fsg, alpha[0]) >= 0;
+        int have_alt_base = fsg_model_word_id(fsg, alpha[0]) >= 0, sil_added = 0, alts_added = 0;
         for (step = 0; step < 2; ++step) {
             if ((step == 0) == (order == 0)) {
                 vfsa s1, s2; char why[300]; int n1, n2;
@@ -334,6 +358,8 @@ static void run(long i, vh_rng *r)
                 vfsa_from_model(fsg, &s2, 0);
                 if (!vfsa_same_arcs(&s1, &s2, 1, why, sizeof(why))) vh_viol("silence_twice", "adding silence a second time changed the arcs: %s", why);
                 vfsa_free(&s1); vfsa_free(&s2);
+                sil_added = 1;
+                check_flags(fsg, alpha, sil_added, alts_added, "after adding silence and filler");
                 vh_count("silence_checked", 1);
             } else {
                 int nadd;
@@ -342,6 +368,8 @@ static void run(long i, vh_rng *r)
                 if (have_alt_base && nadd < 0) vh_viol("alt_refused", "add_alt refused a base word that is in the vocabulary");
                 if (nadd >= 0) fsg_model_add_alt(fsg, alpha[0], vh_path("%s(3)", alpha[0]));
                 if (fsg_model_word_id(fsg, alpha[2]) >= 0 && vh_chance(r, 0.5)) fsg_model_add_alt(fsg, alpha[2], vh_path("%s(2)", alpha[2]));
+                if (nadd >= 0) alts_added = 1;
+                check_flags(fsg, alpha, sil_added, alts_added, "after adding alternates");
                 model_table(fsg, alpha, VF_FILLER_EPS | VF_MAP_ALT, 1, got, NULL);
                 check_table("alt_changed_language", "after adding alternate-pronunciation arcs (w(n) read as w)", truth, got, tsz, alpha);
                 if (nadd > 0) {
